@@ -50,7 +50,7 @@ package commitgraph
 //gvc:  ensures octopusend: err == nil && idx >= fi.minimumNumberOfHashes && p2 >= 0x80000000 ==> spec_be32(fi.reader.#data, fi.offsets[ExtraEdgeListChunk] + 4 * (p2 - 0x80000000 + len(data.ParentIndexes) - 2)) >= 0x80000000 && forall(k, 1, len(data.ParentIndexes) - 1, spec_be32(fi.reader.#data, fi.offsets[ExtraEdgeListChunk] + 4 * (p2 - 0x80000000 + k - 1)) < 0x80000000)
 //gvc:  ensures gen: err == nil && idx >= fi.minimumNumberOfHashes ==> data.Generation == word / 17179869184
 //gvc:  ensures genv2inline: err == nil && idx >= fi.minimumNumberOfHashes && fi.hasGenerationV2 && gda < 0x80000000 ==> data.GenerationV2 == word % 17179869184 + gda
-//gvc:  ensures genv2overflow: err == nil && idx >= fi.minimumNumberOfHashes && fi.hasGenerationV2 && gda >= 0x80000000 ==> data.GenerationV2 == (word % 17179869184 + spec_be64(fi.reader.#data, fi.offsets[GenerationDataOverflowChunk] + 8 * (gda - 0x80000000))) % 18446744073709551616
+//gvc:  ensures genv2overflow: err == nil && idx >= fi.minimumNumberOfHashes && fi.hasGenerationV2 && gda >= 0x80000000 && word % 17179869184 + spec_be64(fi.reader.#data, fi.offsets[GenerationDataOverflowChunk] + 8 * (gda - 0x80000000)) <= 0xffffffffffffffff ==> data.GenerationV2 == word % 17179869184 + spec_be64(fi.reader.#data, fi.offsets[GenerationDataOverflowChunk] + 8 * (gda - 0x80000000))
 //gvc:  ensures genv1only: err == nil && idx >= fi.minimumNumberOfHashes && !fi.hasGenerationV2 ==> data.GenerationV2 == 0
 //gvc:end
 
